@@ -160,7 +160,7 @@ func CheckC03(p *Pkg, e *Env, r *res.Result) {
 					f := res.Failure{Property: "C03", Kind: routeKind(want, gotTpl, path, base), Clause: "routing",
 						Detail: fmt.Sprintf("templates %v base %q (form %v): %s %s: %s", templatesOf(p), base, p.Meta["baseform"], m, path, fail),
 						Replay: p.SpecReplay(map[string]any{"request.txt": m + " " + path})}
-					if !FailOrKnown(e, r, f) {
+					if !FailOrKnown(p, e, r, f) {
 						return // first unknown failure per package is enough
 					}
 				}
